@@ -8,12 +8,12 @@ import (
 )
 
 var (
-	Literals = []string{"a", "b", "c", "ab", "users", "x1", "A", "a.b", "v1", "123", "abc", "z-0"}
+	Literals = []string{"a", "b", "c", "ab", "users", "x1", "A", "a.b", "v1", "123", "abc", "z-0", "index.json", "a-x", "c.foo", "b_v2"}
 	Suffixes = []string{".json", ".foo", "-x", "_v2"}
 	Verbs    = []string{"cancel", "run", "Verb"}
 	Methods  = []string{"GET", "POST", "PUT", "DELETE", "PATCH", "HEAD"}
 	Medias   = []string{"application/json", "application/xml", "text/plain", "application/x-verif"}
-	VarVals  = []string{"x", "42", "a.b", "A", "ünï", "p:q", "x%2Fy", "abc", "007", "a b", "{x}", "v1", "z-0", "q.json", "longlonglonglonglonglonglonglonglonglonglonglonglonglonglonglonglonglonglonglong"}
+	VarVals  = []string{"index", "a", "x", "42", "a.b", "A", "ünï", "p:q", "x%2Fy", "abc", "007", "a b", "{x}", "v1", "z-0", "q.json", "longlonglonglonglonglonglonglonglonglonglonglonglonglonglonglonglonglonglonglong"}
 )
 
 // GenOpts selects the template fragment and table shape.
@@ -34,6 +34,7 @@ type GenOpts struct {
 	StarMedia  bool     // allow */* inside Consumes/Produces
 	Nested     bool     // literal roots that nest (/, /a, /a/b)
 	Methods    []string // method pool (nil: all six)
+	OddMethods bool     // now and then a method outside the usual six (extension methods, OPTIONS)
 	MinSvcs    int
 }
 
@@ -177,6 +178,9 @@ func GenTable(r *core.Rand, o GenOpts) *Table {
 				mpool = o.Methods
 			}
 			rs := RouteSpec{ID: rid, Method: r.Pick(mpool), Path: p}
+			if o.OddMethods && r.Chance(1, 7) {
+				rs.Method = r.Pick([]string{"LOCK", "UNLOCK", "FIND", "PROPFIND", "OPTIONS", "GE"})
+			}
 			key := rs.Method + " " + shapeKey(p)
 			if o.Distinct && seen[key] {
 				continue
@@ -388,7 +392,7 @@ func GenReq(r *core.Rand, t *Table, router string) Req {
 				muts = append(muts, "suffix-drop", "suffix-alter", "suffix-short")
 			}
 			if sg.Verb != "" {
-				muts = append(muts, "verb-drop", "verb-other", "verb-only")
+				muts = append(muts, "verb-drop", "verb-other", "verb-only", "verb-nocolon")
 			}
 		}
 		m := r.Pick(muts)
@@ -404,7 +408,7 @@ func GenReq(r *core.Rand, t *Table, router string) Req {
 		}
 		switch m {
 		case "method":
-			req.Method = r.Pick(append([]string{"OPTIONS", "get"}, Methods...))
+			req.Method = r.Pick(append([]string{"OPTIONS", "get", "LOCK", "UNLOCK", "FIND", "PROPFIND"}, Methods...))
 		case "ct":
 			req.HasCT = r.Chance(4, 5)
 			req.CT = r.Pick(append(advCT, Medias...))
@@ -480,6 +484,11 @@ func GenReq(r *core.Rand, t *Table, router string) Req {
 		case "verb-other":
 			if i := idxOf(func(s Seg) bool { return s.Verb != "" }); i >= 0 {
 				toks[i] = strings.TrimSuffix(toks[i], ":"+full[i].Verb) + ":" + r.Pick([]string{"other", "CANCEL", "cance", "cancelx", "1"})
+			}
+		case "verb-nocolon":
+			if i := idxOf(func(s Seg) bool { return s.Verb != "" }); i >= 0 {
+				base := strings.TrimSuffix(toks[i], ":"+full[i].Verb)
+				toks[i] = r.Pick([]string{base + full[i].Verb, full[i].Verb, base + "-" + full[i].Verb})
 			}
 		case "verb-only":
 			if i := idxOf(func(s Seg) bool { return s.Verb != "" }); i >= 0 {
